@@ -78,6 +78,14 @@ def prepare_scratch(repo, group, scratch, log):
         if rel in group.get("contracts", {}):
             text = insert_attrs(text, rel, group["contracts"][rel])
             info["contracts"] = len(group["contracts"][rel])
+        if rel in group.get("generate", {}):
+            # generated harness support code: real function bodies copied from the file under test (see the generator's docstring)
+            gen = importlib.import_module(group["generate"][rel])
+            gtext = gen.generate(text, rel)
+            info["generated_by"] = group["generate"][rel]
+        else:
+            gtext = ""
+        text = text.rstrip("\n") + "\n" + gtext       # generated code first: the harness module stays last (playback tests are inserted into it)
         if modfile:
             text = text.rstrip("\n") + "\n\n" + open(os.path.join(ROOT, modfile)).read()
         if rel in group.get("crate_attrs", {}):
@@ -217,10 +225,17 @@ def run_one_group(repo, prop, gname, g, tier, log):
         elif failed > 0 or status == "Failure":
             bad = [c for c in r.get("checks", []) if c.get("status") in ("Failure", "Failed")]
             unwinding = [c for c in bad if "unwinding assertion" in c.get("description", "")]
-            real = [c for c in bad if c not in unwinding]
+            # checks Kani adds on its own that are not obligations of the property (listed per harness, reported in the evidence)
+            ignored = [c for c in bad if any(re.search(p, c.get("description", "")) for p in h.get("ignore_checks", []))]
+            real = [c for c in bad if c not in unwinding and c not in ignored]
+            if ignored:
+                res["ignored_checks"] = sorted(set(c.get("description", "") for c in ignored))
+                res["obligations"] -= len(ignored)
             if h.get("should_panic"):
                 real = []
-            if not real and unwinding:
+            if not real and not unwinding and ignored and failed == len(ignored):
+                pass    # only ignorable checks failed: every obligation of this harness is discharged
+            elif not real and unwinding:
                 res["status"] = "undecided"
                 res["undecided"].append("unwinding assertion failed: bound too small for this code")
             elif not real and not bad:
